@@ -71,7 +71,7 @@ func (a *Actor) run(p *vos.Proc, c Call) {
 	vos.Yield("api", c.Kind) // scheduling point at the call boundary
 	w.Begin(p, ci)
 	hist := -1
-	if c.Kind == "add" || c.Kind == "addmulti" || c.Kind == "addempty" || c.Kind == "addbad" || c.Kind == "addmultibad" || c.Kind == "addmultiabandon" {
+	if c.Kind == "add" || c.Kind == "addmulti" || c.Kind == "addempty" || c.Kind == "addbad" || c.Kind == "addmultibad" || c.Kind == "addmultistale" || c.Kind == "addmultiabandon" {
 		w.Hist = append(w.Hist, HistEvent{Proc: p.ID, Kind: "add", TxnIDs: idsOf(c.Txns), Call: w.S.Step, Return: -1})
 		hist = len(w.Hist) - 1
 	}
@@ -116,7 +116,10 @@ func (a *Actor) run(p *vos.Proc, c Call) {
 		err = rtx.Safe(func() error {
 			return a.St.Add(func(wr *reftable.Writer) error { return nil })
 		})
-	case "addmulti", "addmultibad", "addmultiabandon":
+	case "addmulti", "addmultibad", "addmultistale", "addmultiabandon":
+		// addmultistale: every table is written with the update index the stack had when
+		// the Addition was opened, so the second one does not lie above the first and must
+		// be refused (ranges in tables.list are strictly increasing).
 		// addmultibad: the last table is rejected (malformed name), the Addition is
 		// closed; addmultiabandon: all tables are added, then the Addition is closed
 		// without Commit. Neither may leave any trace.
@@ -136,7 +139,9 @@ func (a *Actor) run(p *vos.Proc, c Call) {
 				if c.Kind == "addmulti" {
 					ci.UIs = append(ci.UIs, u)
 				}
-				ui++
+				if c.Kind != "addmultistale" {
+					ui++
+				}
 			}
 			if c.Kind == "addmultiabandon" {
 				return errAbandoned
@@ -257,7 +262,7 @@ func (a *Actor) judge(p *vos.Proc, c Call, ci *CallInfo, err error) {
 		case err != nil && err != reftable.ErrLockFailure:
 			w.violate([]string{"C04"}, "add-failed-with-unexpected-error|"+errCls(err), "p%d %s failed with %q (only ErrLockFailure / content rejection are allowed without I/O faults)", p.ID, c.String(), err)
 		}
-	case "addmultibad", "addmultiabandon":
+	case "addmultibad", "addmultistale", "addmultiabandon":
 		if err == nil {
 			w.violate([]string{"C12", "C04"}, "illegal-or-abandoned-addition-committed", "p%d %s returned nil", p.ID, c.String())
 		}
